@@ -52,15 +52,16 @@ enum XOp {
     Range(bool, String, Option<(u32, u32)>),
 }
 
-const XU: [u32; 4] = [0, 5, 10, 65529];
-const XO: [u32; 7] = [0, 3, 5, 7, 10, 65529, 65530];
+/// (5 and 6 are neighbours: a range that ends on a line must not run on into the next number)
+const XU: [u32; 4] = [0, 5, 6, 65529];
+const XO: [u32; 7] = [0, 3, 5, 6, 7, 65529, 65530];
 
 fn xops() -> Vec<XOp> {
     let mut v = vec![];
     for n in XU {
         v.push(XOp::Ins(n));
     }
-    for n in [0u32, 5, 7, 10, 65529, 65530] {
+    for n in [0u32, 5, 6, 7, 65529, 65530] {
         v.push(XOp::Bare(n));
     }
     for del in [false, true] {
@@ -199,9 +200,9 @@ impl Prop for C15 {
          get_listing() must equal the BTreeMap model; every LIST must emit exactly the model's lines of the range, \
          ascending. Distinct = hash of the history; non-trivial = at least 3 LIST/DELETE range commands executed on a \
          non-empty store. Before the random histories: EXHAUSTIVE enumeration of all histories of 1 and 2 commands \
-         (quick: plus every 16th of length 3; thorough: all of length 3, ~4.1 million) over the universe {0,5,10,65529} \
+         (quick: plus every 16th of length 3; thorough: all of length 3, ~4.1 million) over the universe {0,5,6,65529} \
          with numbered lines, bare numbers (present, absent, 65530) and LIST / DELETE in all five forms with \
-         operands from {0,3,5,7,10,65529,65530}, plus DELETE without a number followed by `:PRINT 9`, a remark or `-` (must be refused), each checked the same way."
+         operands from {0,3,5,6,7,65529,65530}, plus DELETE without a number followed by `:PRINT 9`, a remark or `-` (must be refused), each checked the same way."
     }
 
     fn run_case(&mut self, idx: u64, rng: &mut Rng, ctx: &mut Ctx) {
